@@ -148,7 +148,43 @@ def builtins():
             # list(iterable): the same elements in the same order (symbolic length)
             return SeqV(v.at, v.length, 'list(%s)' % v.name)
         raise Unsupported('list of %r' % (v,))
-    return {'isinstance': FuncV('isinstance', _isinstance), 'len': FuncV('len', _len), 'next': FuncV('next', _next),
+    def _enumerate(p, args, kw):
+        (it,) = args
+        if not isinstance(it, (IterV, SeqV)) or kw:
+            raise Unsupported('enumerate of %r' % (it,))
+        return IterV(lambda t, _it=it: TupleV([IntV(t), _it.at(t)]), it.length, 'enumerate(%s)' % it.name)
+
+    def _reversed(p, args, kw):
+        (it,) = args
+        if isinstance(it, (TupleV, ListV)):
+            return ListV(list(reversed(it.items)))
+        if not isinstance(it, SeqV):
+            raise Unsupported('reversed of %r' % (it,))
+        return IterV(lambda t, _it=it: _it.at(_it.length - 1 - t), it.length, 'reversed(%s)' % it.name)
+
+    def _map(p, args, kw):
+        f, it = args
+        if isinstance(it, (TupleV, ListV)):
+            return ListV([f.fn(p, [x], {}) if isinstance(f, FuncV) else _call_class(p, f, x) for x in it.items])
+        if isinstance(it, (IterV, SeqV)):
+            return IterV(lambda t: f.fn(p, [it.at(t)], {}), it.length, 'map(%s)' % it.name)
+        raise Unsupported('map over %r' % (it,))
+
+    def _call_class(p, f, x):
+        raise Unsupported('map with %r' % (f,))
+
+    def _set(p, args, kw):
+        if not args:
+            o = ObjV('set', {}, name='set()')
+            return o
+        v = args[0]
+        if isinstance(v, ObjV) and '__set__' in v.fields:
+            return v.fields['__set__'].fn(p, [v], {})
+        raise Unsupported('set of %r' % (v,))
+
+    return {'map': FuncV('map', _map), 'set': FuncV('set', _set),
+            'enumerate': FuncV('enumerate', _enumerate), 'reversed': FuncV('reversed', _reversed),
+            'isinstance': FuncV('isinstance', _isinstance), 'len': FuncV('len', _len), 'next': FuncV('next', _next),
             'tuple': FuncV('tuple', _tuple), 'list': FuncV('list', _list),
             'int': ClassV('int'), 'slice': ClassV('slice'), 'str': ClassV('str'), 'bool': ClassV('bool'),
             'True': BoolV(True), 'False': BoolV(False), 'None': NONE}
